@@ -1,14 +1,14 @@
 (* C10/Examples.v — non-vacuity: concrete instances of the hypotheses of the
    property theorems, and a few schedules replayed through the model. *)
 From XV Require Import lib.Bytes lib.Lts gen.SessClose C10.Model C10.Inv C10.Proofs C10.Closers
-  C10.Transmit C10.InLock C10.Progress C10.Refute C10.Spec.
+  C10.Transmit C10.InLock C10.StateLock C10.Progress C10.Refute C10.Spec.
 
 (* three Close callers and two transmitters interleaved: one tag, the late
    transmitters fail *)
 Definition ex_kinds : list kind := [KClose; KSend 1; KClose; KEncode 3; KClose].
 (* Send starts and completes, then the Close calls interleave with Encode *)
 Definition ex_trace : list nat :=
-  repeat 1 9 ++ [0; 2; 4; 0; 0; 0; 0; 3; 0; 3; 3; 3; 2; 2; 2; 2; 2; 4; 4; 4; 4; 4; 3].
+  repeat 1 9 ++ [0; 2; 4; 0; 0; 0; 0; 0; 3; 0; 3; 3; 3; 2; 2; 2; 2; 2; 2; 4; 4; 4; 4; 4; 4; 3].
 
 Example ex_runs : exists s, run step (init true ex_kinds) ex_trace = Some s /\
   o_wire (s_o s) = [IElem 1; IClose] /\ o_buf (s_o s) = [] /\
@@ -17,7 +17,7 @@ Proof. vm_compute. eexists. repeat split; reflexivity. Qed.
 
 (* hypotheses of C10_transmit_fails_after_close: a reachable closed state with
    a transmitter of each family that has not started *)
-Example ex_not_started : exists s, run step (init true [KClose; KSend 1; KTokenWriter 2; KEncodeElement 3; KEncodeNF 4]) (repeat 0 6) = Some s /\
+Example ex_not_started : exists s, run step (init true [KClose; KSend 1; KTokenWriter 2; KEncodeElement 3; KEncodeNF 4]) (repeat 0 7) = Some s /\
   o_cl (s_o s) = true /\ not_started s 1 (KSend 1) /\ not_started s 2 (KTokenWriter 2) /\
   not_started s 3 (KEncodeElement 3) /\ not_started s 4 (KEncodeNF 4) /\
   is_transmit (KSend 1) = true /\ is_transmit (KTokenWriter 2) = true.
@@ -27,7 +27,7 @@ Proof. vm_compute. eexists. repeat split; reflexivity. Qed.
    closes; Serve returns nil, both bits set *)
 Definition ex_serve : list kind := [KServe; KPeer [PElem true false 1; PClose]; KClose].
 Example ex_serve_runs : exists s,
-  run step (init false ex_serve) ([1; 1; 1] ++ repeat 0 12 ++ repeat 2 6 ++ repeat 0 13) = Some s /\
+  run step (init false ex_serve) ([1; 1; 1] ++ repeat 0 12 ++ repeat 2 7 ++ repeat 0 14) = Some s /\
   returned s 0 ENil /\ a_cause (s_a s 0) = CPeerClose /\ o_cl (s_o s) = true /\ i_cl (s_i s) = true /\
   o_wire (s_o s) = [IElem 1; IClose] /\ returned s 2 ENil.
 Proof. vm_compute. eexists. repeat split; reflexivity. Qed.
@@ -57,3 +57,17 @@ Example ex_hsched :
   let s := hsched (init true [KClose; KSend 1]) [0; 1; 0; 1; 0; 1; 1] in
   o_wire (s_o s) = [IClose] /\ a_res (s_a s 1) = Some EOutClosed.
 Proof. vm_compute. split; reflexivity. Qed.
+
+(* the bit is set before the tag is written: the window in which the tag is owed *)
+Example ex_owed : exists s, run step (init true [KClose]) [0; 0; 0; 0] = Some s /\
+  o_cl (s_o s) = true /\ o_pend (s_o s) = true /\ o_wire (s_o s) = [] /\ o_sl (s_o s) = None /\
+  exists s', step s 0 = Some s' /\ o_wire (s_o s') = [IClose] /\ o_pend (s_o s') = false.
+Proof. vm_compute. eexists. repeat split; try reflexivity. eexists. repeat split; reflexivity. Qed.
+
+(* with a peer that does not read the closer waits in its write, holding only
+   the output lock: Serve, SetCloseDeadline and a State reader go on *)
+Example ex_stalled : exists s,
+  run step (init true [KClose; KStall true; KServe; KSetDeadline false]) [1; 1; 0; 0; 0; 0; 2; 2; 3; 3] = Some s /\
+  step s 0 = None /\ o_pend (s_o s) = true /\ o_sl (s_o s) = None /\
+  a_res (s_a s 3) = Some ENil /\ exists s', step s 2 = Some s'.
+Proof. vm_compute. eexists. repeat split; try reflexivity. eexists. reflexivity. Qed.
